@@ -1596,6 +1596,51 @@ class C10S(PropOracle):
 ORACLES["C10S"] = C10S
 
 
+class C20S(PropOracle):
+    """System-level half of C20: every event logged by a job's own process (job-outputs/<job>/events.log, moved into the
+    node's event log when its batch ends) is in the consolidated event logs exactly once when the submission is complete."""
+
+    prop = "C20"
+
+    def on_end(self, w, vp, d):
+        if w.data.get("faulty") or not (w.obs.cluster or {}).get("is_complete"):
+            return
+        written = w.data.get("job_events_written") or []
+        if not written:
+            return
+        import glob as _glob
+
+        found = {}
+        for p in sorted(_glob.glob(w.rootp + "*events.log")):
+            try:
+                with open(p) as f:
+                    for line in f:
+                        line = line.strip()
+                        if not line:
+                            continue
+                        try:
+                            r = json.loads(line)
+                        except ValueError:
+                            self.v(w, f"{os.path.basename(p)} holds an unparsable event line {line[:80]!r}", "event-line-unparsable")
+                            continue
+                        if r.get("name") == "job_evt":
+                            k = (r.get("source"), r.get("message"))
+                            found[k] = found.get(k, 0) + 1
+            except OSError:
+                pass
+        for k in written:
+            c = found.get(k, 0)
+            if c != 1:
+                self.v(w, f"event {k[1]!r} logged by the process of job {k[0]} is {c} times in the node event logs that the summary is built from "
+                          f"(found: {sorted(found.items())})", "job-event-lost-or-duplicated")
+        extra = [k for k in found if k not in set(written)]
+        if extra:
+            self.v(w, f"event logs hold job events nobody wrote: {extra}", "job-event-fabricated")
+
+
+ORACLES["C20S"] = C20S
+
+
 class C03R(PropOracle):
     """After a resubmission of everything that did not succeed (flags failed+missing, reruns succeed) the
     completed results again hold exactly one successful entry per job; reruns happen once, in dependency order."""
